@@ -21,17 +21,17 @@ func (e *SimErr) Error() string { return fmt.Sprintf("sim-%s-error#%d", e.Who, e
 // SimReader: io.Reader driven by an explicit, position keyed fault plan.
 
 type SimReader struct {
-	data   []byte
-	plan   RPlan
-	pos    int
-	calls  int
-	fired  map[string]int // fault kind -> times actually reached
-	ev     []rEvState
-	errs   map[int]*SimErr
+	data    []byte
+	plan    RPlan
+	pos     int
+	calls   int
+	fired   map[string]int // fault kind -> times actually reached
+	ev      []rEvState
+	errs    map[int]*SimErr
 	last    error // last non-nil error returned
 	lastRet error // error of the most recent Read call (may be nil)
 	lastN   int
-	eofHit bool
+	eofHit  bool
 	zeroRun int
 }
 
